@@ -5,6 +5,10 @@ from .framework import run_check
 
 # property id -> "module:Class" (module relative to the harness package)
 PROPS = {
+    "C14": "props_state:C14",
+    "C19": "props_c19:C19",
+    "C15": "props_xarray:C15",
+    "C11": "props_dtypes:C11",
     "C07": "props_multibin:C07",
     "C13": "props_purity:C13",
     "C09": "props_cohorts:C09",
